@@ -221,6 +221,20 @@ def vectoryx2d_forms_both_modes(mask, values, grid):
                 _expect(label + ".grid.native", v.grid.native, grid_native, grid_native.shape)
             if msg:
                 return msg
+            # a vector field that came out of arithmetic (its raw storage then holds non-zero numbers at masked pixels) or was edited
+            # at a masked pixel: "every masked position equal to zero" is a statement about the native FORM, whatever the storage holds
+            der = obj + 3.5
+            msg = _expect(label + " + 3.5 .native", der.native, np.where(mask[:, :, None], 0.0, values + 3.5), want_native.shape) or \
+                _expect(label + " + 3.5 .slim", der.slim, want_slim + 3.5, want_slim.shape)
+            if msg:
+                return msg
+            if store_native and mask.any():
+                y, x = [int(t) for t in np.argwhere(mask)[0]]
+                obj[y, x] = np.array([7.0, -7.0])
+                msg = _expect(label + "; item assignment at masked pixel (%d, %d); .native" % (y, x), obj.native, want_native, want_native.shape) or \
+                    _expect(label + "; item assignment at a masked pixel; .slim", obj.slim, want_slim, want_slim.shape)
+                if msg:
+                    return msg
     return None
 
 
